@@ -22,12 +22,14 @@ structure Entry where
 deriving DecidableEq, Repr
 
 structure Cfg where
-  delByDevice : Bool := true        -- delete calls match the device address named in the request, whoever sends it
+  delSubByDevice : Bool := true     -- RemoveSubscription matches the device address named in the request, whoever sends it
+  delBindByDevice : Bool := true    -- RemoveBinding does the same
   unbindDisjunct : Bool := true     -- RemoveBinding drops entries with the same client OR the same server
-  dropBindsAnyPeer : Bool := true   -- entity removal compares the binding's entity address only
-deriving Repr
+  dropBindsAnyPeer : Bool := true   -- RemoveBindingsForEntity compares the binding's entity address only
+deriving Repr, DecidableEq
 
-def Cfg.clean : Cfg := { delByDevice := false, unbindDisjunct := false, dropBindsAnyPeer := false }
+def Cfg.clean : Cfg :=
+  { delSubByDevice := false, delBindByDevice := false, unbindDisjunct := false, dropBindsAnyPeer := false }
 
 structure St where
   loc : List Feat
@@ -60,13 +62,13 @@ def addSub (s : St) (p : Nat) (cEnt : List Nat) (cFeat : Nat) (sEnt : List Nat) 
   else ({ s with subNum := s.subNum + 1, subs := s.subs ++ [⟨s.subNum + 1, sEnt, sFeat, p, cEnt, cFeat⟩] }, true)
 
 /-- whose entries a delete call from peer `p` naming device `cDev` (0 = omitted, k = device of peer k) addresses -/
-def target (c : Cfg) (p cDev : Nat) : Option Nat :=
-  if cDev = 0 || cDev = p then some p else if c.delByDevice then some cDev else none
+def target (byDevice : Bool) (p cDev : Nat) : Option Nat :=
+  if cDev = 0 || cDev = p then some p else if byDevice then some cDev else none
 
 def delSub (c : Cfg) (s : St) (p cDev : Nat) (cEnt : List Nat) (cFeat : Nat) (sEnt : List Nat) (sFeat : Nat) : St × Bool :=
   match findF (s.rem p) cEnt cFeat, findF s.loc sEnt sFeat with
   | some _, some _ =>
-    match target c p cDev with
+    match target c.delSubByDevice p cDev with
     | none => (s, false)
     | some q =>
       let keep := s.subs.filter fun e => !e.is q cEnt cFeat sEnt sFeat
@@ -78,21 +80,25 @@ def addBind (s : St) (p : Nat) (cEnt : List Nat) (cFeat : Nat) (sEnt : List Nat)
   if s.binds.any (fun e => e.sEnt = sEnt && e.sFeat = sFeat) then (s, false) else
   ({ s with bindNum := s.bindNum + 1, binds := s.binds ++ [⟨s.bindNum + 1, sEnt, sFeat, p, cEnt, cFeat⟩] }, true)
 
+/-- the retain condition of the loop in RemoveBinding -/
+def unbindKeep (c : Cfg) (p cDev : Nat) (cEnt : List Nat) (cFeat : Nat) (sEnt : List Nat) (sFeat : Nat) (e : Entry) : Bool :=
+  if c.unbindDisjunct then
+    -- as written: an entry survives only if its client address differs AND its server differs
+    !(match target c.delBindByDevice p cDev with
+      | some q => e.peer = q && e.cEnt = cEnt && e.cFeat = cFeat
+      | none => false) && !(e.sEnt = sEnt && e.sFeat = sFeat)
+  else
+    !(match target c.delBindByDevice p cDev with
+      | some q => e.is q cEnt cFeat sEnt sFeat
+      | none => false)
+
 def delBind (c : Cfg) (s : St) (p cDev : Nat) (cEnt : List Nat) (cFeat : Nat) (sEnt : List Nat) (sFeat : Nat) : St × Bool :=
   match findF (s.rem p) cEnt cFeat, findF s.loc sEnt sFeat with
   | some _, some sv =>
     if !(sv.role = .special || sv.role = .server) then (s, false) else
+    -- HasLocalFeatureRemoteBinding(server, the requester's own client feature)
     if !(s.binds.any (·.is p cEnt cFeat sEnt sFeat)) then (s, false) else
-    let keep := s.binds.filter fun e =>
-      if c.unbindDisjunct then
-        -- as written: an entry survives only if its client address differs AND its server differs
-        !(match target c p cDev with
-          | some q => e.peer = q && e.cEnt = cEnt && e.cFeat = cFeat
-          | none => false) && !(e.sEnt = sEnt && e.sFeat = sFeat)
-      else
-        !(match target c p cDev with
-          | some q => e.is q cEnt cFeat sEnt sFeat
-          | none => false)
+    let keep := s.binds.filter (unbindKeep c p cDev cEnt cFeat sEnt sFeat)
     if keep.length = s.binds.length then (s, false) else ({ s with binds := keep }, true)
   | _, _ => (s, false)
 
@@ -102,7 +108,37 @@ def dropPeer (c : Cfg) (s : St) (p : Nat) : St :=
   { s with subs := s.subs.filter fun e => !(e.peer = p && ents.contains e.cEnt),
            binds := s.binds.filter fun e => !((c.dropBindsAnyPeer || e.peer = p) && ents.contains e.cEnt) }
 
+/-- A remote entity is announced as removed (processNotifyDetailedDiscoveryData, removal branch):
+    RemoveEntityByAddress (exact address), RemoveSubscriptionsForEntity (device and entity address),
+    RemoveBindingsForEntity (entity address only, as written). The entity's features are no longer announced. -/
+def dropEntity (c : Cfg) (s : St) (p : Nat) (ent : List Nat) : St :=
+  if !((s.rem p).map (·.ent)).contains ent then s else
+  { s with rem := fun q => if q = p then (s.rem p).filter (fun f => !(f.ent = ent)) else s.rem q,
+           subs := s.subs.filter fun e => !(e.peer = p && e.cEnt = ent),
+           binds := s.binds.filter fun e => !((c.dropBindsAnyPeer || e.peer = p) && e.cEnt = ent) }
+
+/-- SubscriptionManager.Subscriptions(peer) / BindingManager.Bindings(peer): filter by the entry's connection -/
+def subsOf (s : St) (p : Nat) : List Entry := s.subs.filter (·.peer = p)
+def bindsOf (s : St) (p : Nat) : List Entry := s.binds.filter (·.peer = p)
+
 def notifyTargets (s : St) (sEnt : List Nat) (sFeat : Nat) : List (Nat × List Nat × Nat) :=
   (s.subs.filter fun e => e.sEnt = sEnt && e.sFeat = sFeat).map fun e => (e.peer, e.cEnt, e.cFeat)
+
+/-- one call, drop or entity removal; a history is a list of these -/
+inductive Op
+  | bind (p : Nat) (cEnt : List Nat) (cFeat : Nat) (sEnt : List Nat) (sFeat typ : Nat)
+  | unbind (p cDev : Nat) (cEnt : List Nat) (cFeat : Nat) (sEnt : List Nat) (sFeat : Nat)
+  | sub (p : Nat) (cEnt : List Nat) (cFeat : Nat) (sEnt : List Nat) (sFeat typ : Nat)
+  | unsub (p cDev : Nat) (cEnt : List Nat) (cFeat : Nat) (sEnt : List Nat) (sFeat : Nat)
+  | drop (p : Nat)
+  | dropEnt (p : Nat) (ent : List Nat)
+
+def step (c : Cfg) (s : St) : Op → St
+  | .bind p ce cf se sf t => (addBind s p ce cf se sf t).1
+  | .unbind p cd ce cf se sf => (delBind c s p cd ce cf se sf).1
+  | .sub p ce cf se sf t => (addSub s p ce cf se sf t).1
+  | .unsub p cd ce cf se sf => (delSub c s p cd ce cf se sf).1
+  | .drop p => dropPeer c s p
+  | .dropEnt p ent => dropEntity c s p ent
 
 end Spine.Reg
